@@ -5,7 +5,7 @@
    Layer (b), the compilation of a conformed tree to SQLAlchemy and its evaluation by SQLite, is
    validated per run against a real database (both physical scan orders); it is modelled, not
    proved (see MANIFEST / DESIGN). *)
-From DR Require Import Model.Reach Proofs.SemLaws Proofs.SqlRules Proofs.SqlBinary Proofs.SqlBuild.
+From DR Require Import Model.Reach Proofs.SemLaws Proofs.SqlRules Proofs.SqlBinary Proofs.SqlJoinId Proofs.SqlBuild.
 Local Open Scope Z_scope.
 
 (* Select.apply_skip: marker, skip target and target chain agree, and denote the recorded slots *)
@@ -35,18 +35,35 @@ Theorem C02_chain_rule_sound : forall env cf l r s,
 Proof. exact append_chain_sound. Qed.
 
 (* joins: the markers of both operands are stripped where that is safe (no hidden column collides with a column
-   of the other operand) and the projection is re-applied outside.  Operands with at least one column: the
-   join-identity elision (and its re-entry into conform) is decided by the correspondence run only. *)
-Theorem C02_join_rule_sound : forall env cf p c l r s,
+   of the other operand) and the projection is re-applied outside.  Every pair of conformed operands, including
+   operands without columns: when one of them is the join identity, Join._finish_apply hands back the other one with
+   the predicate applied as a selection, which re-enters Engine.conform on a stripped skip target — sound because
+   every marker inside a good marker's skip target is itself good (good_all). *)
+Theorem C02_join_rule_sound : forall env p c l r s,
   good_all env l -> good_all env r -> engine_of l = engine_of r ->
-  c ⊆ columns l -> c ⊆ columns r -> cols_p p ⊆ columns l ∪ columns r -> columns l <> ∅ -> columns r <> ∅ ->
+  c ⊆ columns l -> c ⊆ columns r -> cols_p p ⊆ columns l ∪ columns r ->
+  append_binary_sel (BJoin p c) l r = Ok s ->
+  good_all env s /\ sem_tree env s = sem_join c p (sem_tree env l) (sem_tree env r) /\
+  columns s = columns l ∪ columns r /\ engine_of s = engine_of l.
+Proof. exact engine_join_sound. Qed.
+
+(* the same with any conformation function that is sound on well-formed trees whose markers are good *)
+Theorem C02_join_rule_sound_with : forall env cf p c l r s,
+  cf_ok env cf ->
+  good_all env l -> good_all env r -> engine_of l = engine_of r ->
+  c ⊆ columns l -> c ⊆ columns r -> cols_p p ⊆ columns l ∪ columns r ->
   append_binary_sel_with cf (BJoin p c) l r = Ok s ->
   good_all env s /\ sem_tree env s = sem_join c p (sem_tree env l) (sem_tree env r) /\
   columns s = columns l ∪ columns r /\ engine_of s = engine_of l.
-Proof. exact append_join_sound. Qed.
+Proof. exact append_join_sound_gen. Qed.
+
+(* the join identity on either side: the rows of the other operand that satisfy the predicate *)
+Theorem C02_join_with_identity : forall p (R : rows),
+  sem_join ∅ p [∅] R = sem_sel p R /\ sem_join ∅ p R [∅] = sem_sel p R.
+Proof. intros p R. split; [apply sem_join_identity_l|apply sem_join_identity_r]. Qed.
 
 (* whole programs: every relation a single-engine SQL program of factory calls (leaves, all unary operations,
-   __getitem__, chains, natural joins with a predicate, materializations) returns is conformed and denotes the
+   __getitem__, chains, natural joins with a predicate — operands without columns included —, materializations) returns is conformed and denotes the
    specification of the program — the rows, in order, of direct evaluation. *)
 Theorem C02_sql_program_denotes_its_specification : forall env e0, ekind_of e0 = KSql ->
   forall p t, sqlprog_ok env e0 p -> build_multi p = Ok t ->
